@@ -62,7 +62,13 @@ fn run_decode(sc: &Value) -> Value {
         let bytes = unhex(ch.as_str().unwrap());
         total_in += bytes.len();
         buf.extend_from_slice(&bytes);
+        let mut rounds = 0;
         loop {
+            rounds += 1;
+            if rounds > 64 {
+                calls.push(json!({"result": "runaway", "buffered": buf.len()}));
+                break 'outer;
+            }
             let before = buf.len();
             let r = catch_unwind(AssertUnwindSafe(|| codec.decode(&mut buf)));
             let after = buf.len();
